@@ -173,23 +173,23 @@ package ast
 //@   updates om_len(matrix.om) := om_len(matrix.om) + 1 if !om_has(matrix.om, key)
 //@   updates om_has(matrix.om, key) := true                                       [C16]
 
-// Constructors (trusted: they allocate, create the inner ordered map and insert the given elements).
+// Constructors (verified since round 16; assumed before): they allocate, create the inner ordered map and insert the given elements.
 //@ func NewTasks
-//@   trusted
-//@   pure allocates
-//@   ensures fresh(result) && result.om != nil
+//@   modifies om_has, om_val, om_len, om_key
+//@   loop 1 invariant fresh(tasks) && tasks.om != nil
+//@   ensures fresh(result) && result.om != nil                                                              [C08]
 //@ func NewVars
-//@   trusted
-//@   pure allocates
-//@   ensures fresh(result) && result.om != nil
+//@   modifies om_has, om_val, om_len, om_key
+//@   loop 1 invariant fresh(vars) && vars.om != nil
+//@   ensures fresh(result) && result.om != nil                                                              [C10]
 //@ func NewIncludes
-//@   trusted
-//@   pure allocates
-//@   ensures fresh(result) && result.om != nil
+//@   modifies om_has, om_val, om_len, om_key
+//@   loop 1 invariant fresh(includes) && includes.om != nil
+//@   ensures fresh(result) && result.om != nil                                                              [C08]
 //@ func NewMatrix
-//@   trusted
-//@   pure allocates
-//@   ensures fresh(result) && result.om != nil
+//@   modifies om_has, om_val, om_len, om_key
+//@   loop 1 invariant fresh(matrix) && matrix.om != nil
+//@   ensures fresh(result) && result.om != nil                                                              [C16]
 
 // ---- C06/C01: the local name of a task is its name without the namespace prefix ------------------------
 //@ func (*Task).LocalName
